@@ -55,8 +55,8 @@ def games(seed, n, plies=30):
     out = []
     for l in p.stdout.split('\n'):
         if '|' in l:
-            a, b = l.split('|', 1)
-            out.append((a, b.split()))
+            parts = l.split('|')
+            out.append((parts[0], parts[1].split()))
     return out
 
 
